@@ -270,6 +270,7 @@ type Thread struct {
 	yielded bool
 
 	blockCount int // number of times this thread parked in a blocking operation
+	inDrain    bool
 }
 
 type Machine struct {
